@@ -15,6 +15,9 @@ def repl(m):
     wall = e.get('wall_s')
     ptxt = f"{paths:,}".replace(",", " ") if paths < 10000 else f"{round(paths/1000)} k"
     return m.group(0)[:m.group(0).rindex('|', 0, len(m.group(0)) - 1) + 1] + f" {ptxt} / {round(wall)} s |"
-s2 = re.sub(r'^\| (C\d\d) \|[^\n]*\| [^|\n]* \|$', repl, s, flags=re.M)
+a = s.index('## 6. Per-property checks as built')
+b = s.index('## 7. Not applicable')
+sec = re.sub(r'^\| (C\d\d) \|[^\n]*\| [^|\n]* \|$', repl, s[a:b], flags=re.M)
+s2 = s[:a] + sec + s[b:]
 open(p, 'w').write(s2)
 print("rows updated:", sum(1 for a, b in zip(s.split('\n'), s2.split('\n')) if a != b))
